@@ -348,6 +348,7 @@ M_TM = {
     "timer": M("timer", OB.ob_timer, OB.ob_timer.__doc__, ["<Timer as EventSource>::register", "::unregister", "::reregister", "::process_events"],
                "all paths (loop-free)", replay=["c05_timer_scenarios"]),
 }
+M_POLL = M("poll", OB.ob_poll, OB.ob_poll.__doc__, ["sys::Poll::poll"], "timer drain loop unrolled twice", replay=["c01_routing_scenarios", "c05_timer_scenarios"])
 M_TOK = M("token", OB.ob_token, OB.ob_token.__doc__, TOKEN_FNS, "full 64-bit key space (bit-vector validity queries, no unrolling)",
           replay=["c01_routing_scenarios"])
 from mirsym import pqueries as PQ   # noqa: E402
@@ -372,15 +373,15 @@ def addm(pid, obs):
     PROPS[pid]["m"] = PROPS[pid].get("m", []) + obs
 
 
-addm("C01", [M_DE["disp1"], M_DE["fsub"], M_TOK])
+addm("C01", [M_DE["disp1"], M_DE["fsub"], M_TOK, M_TM["timer"]])
 addm("C20", [M_TOK])
-addm("C02", [M_DE["disp1"], M_CH["process"], M_EX["process"]])
+addm("C02", [M_DE["disp1"], M_CH["process"], M_EX["process"], M_POLL])
 addm("C03", [M_PING["ping"], P_Q["ping"]])
 P("C04", "model_checking", [], [M_CH["send"], M_CH["process"], M_PING["ping"], P_Q["chan"]],
   bounds="engine M: all paths, receive loop unrolled twice, batch limit for every 64-bit capacity; engine P: see obligation bounds",
   outside="std::sync::mpsc itself (linearizable FIFO, disconnect when the last sender is dropped; try_recv on a zero-capacity "
           "channel pairs with a blocked sender); weak memory; more than one sender thread in the interleaving query")
-addm("C05", [M_TM["wheel"], M_TM["timer"]])
+addm("C05", [M_TM["wheel"], M_TM["timer"], M_POLL])
 addm("C06", [M_H["remove"], M_H["disable"], M_H["update"], M_H["enable"], M_DE["rm3"], M_TOK])
 addm("C07", [M_H["disable"], M_H["enable"], M_DE["pa2"], M_DE["fsub"], M_DE["rm3"], M_TM["timer"]])
 addm("C08", [M_DE["re1"], M_H["re2"], M_EX["process"], M_DE["pa2"], M_H["idles"]])
@@ -393,7 +394,7 @@ P("C11", "model_checking", [], [M_L["run"], M_L["block_on"], M_L["signal"], P_Q[
   bounds="engine M: 2 loop iterations; engine P: 3 iterations, 2 remote operations",
   outside="the stickiness of Poller::notify itself (polling's documented contract, modelled); a stop() racing run's initial reset "
           "(excluded by the property text)")
-addm("C12", [M_DE["lc2"], M_TM["wheel"], M_TM["timer"]])
+addm("C12", [M_DE["lc2"], M_TM["wheel"], M_TM["timer"], M_POLL])
 addm("C13", [M_H["idles"], M_H["insidle"]])
 addm("C14", [M_DE["lc2"], M_DE["fsub"]])
 addm("C15", [M_H["reg1"], M_IO["new"], M_DE["err1"], M_DE["err2"], M_DE["pa2"]])
